@@ -173,8 +173,8 @@ func c10Corpus() []*c01Script {
 		// 17, 18 (below): behind a channel medium, the insufficient-state marker reaches a plain / a positioned subscription
 		// 16: same, server-side unsubscribe
 		{JL: true, Batch: true, BatchReload: true, Unsub: 2, Phase: c01Phases(map[int][]c01Op{6: c01Ops(P(false), D(0)), 7: c01Ops(c01Op{K: "flush"})})},
-		{Medium: true, JL: true, Phase: c01Phases(map[int][]c01Op{6: c01Ops(P(false), D(0), c01Op{K: "mark"}, J, D(0), P0, D(0), P(false), D(0))})},
-		{Medium: true, Pos: true, JL: true, Phase: c01Phases(map[int][]c01Op{6: c01Ops(P(false), D(0), c01Op{K: "mark"}, J, D(0), P(false), D(0))})},
+		{Medium: true, NoFilter: true, JL: true, Phase: c01Phases(map[int][]c01Op{6: c01Ops(P(false), D(0), c01Op{K: "mark"}, J, D(0), P0, D(0), P(false), D(0))})},
+		{Medium: true, NoFilter: true, Pos: true, JL: true, Phase: c01Phases(map[int][]c01Op{6: c01Ops(P(false), D(0), c01Op{K: "mark"}, J, D(0), P(false), D(0))})},
 	}
 }
 
